@@ -1,12 +1,204 @@
 /-
-  Oracle commands for C08 (stub: owns no commands yet).
+  Oracle commands for C08 (blob cache).  `hash` of the model is instantiated with SHA-256.
+
+    hist <fixed 0|1> <nops> op*            -> r1;r2;… | blobs | manifests     (final disk)
+        op = put <d> <size> <script> | import <size> <script> | get <d> | link <name> <d>
+           | unlink <name> | resolve <name> | chunk <d> <size> <start> <stop> <cd> <script>
+        script = <nchunks> <hex>* (eof|err)
+    crash put <init> <d> <size> <script> <kind> <n>
+    crash import <init> <size> <script> <kind> <n>
+    crash chunk <init> <size> <start> <stop> <cd> <script> <kind> <n>
+                                           -> killed <state> | survived <state> <res>
+        init/state = absent | <hex> | - ; kind = open|write|trunc|rename ; n = 1-based occurrence killed at entry
+    conc <init> <d> <size> <nw> script* <nev> (s<i>|d<i>)*
+                                           -> state after each event, `,`-joined | result per writer
+        s<i> = writer i runs from its stat to its first Read (stat + open, or the same-size return);
+        d<i> = writer i is handed its next source item and runs to its next Read / return.
+    sha <hex>                              -> <hex digest>
 -/
+import OllamaVerif.Model.BlobCache
+import OllamaVerif.Model.Sha256
 import Oracle.Util
 namespace Oracle.C08
-open Oracle
+open OllamaVerif OllamaVerif.BlobCache Oracle
+
+def H : Bytes → Digest := Sha256.sha256
+
+def pScript : TP Script := do
+  let chunks ← listOf hex
+  let f ← tok
+  match f with
+  | "eof" => pure ⟨chunks, .eof⟩
+  | "err" => pure ⟨chunks, .err⟩
+  | _ => failure
+
+def pOp : TP Op := do
+  let t ← tok
+  match t with
+  | "put" => do let d ← hex; let size ← nat; let s ← pScript; pure (.put d size s)
+  | "import" => do let size ← nat; let s ← pScript; pure (.importB size s)
+  | "get" => do let d ← hex; pure (.get d)
+  | "link" => do let n ← hex; let d ← hex; pure (.link n d)
+  | "unlink" => do let n ← hex; pure (.unlink n)
+  | "resolve" => do let n ← hex; pure (.resolve n)
+  | "chunk" => do
+    let d ← hex; let size ← nat; let a ← nat; let b ← nat; let cd ← hex; let s ← pScript
+    pure (.chunk d size a b cd s)
+  | _ => failure
+
+def showRes : Res → String
+  | .ok => "ok"
+  | .underfoot => "err:underfoot"
+  | .exceeds => "err:exceeds"
+  | .srcErr => "err:src"
+  | .short => "err:short"
+  | .notExist => "err:notexist"
+  | .invalidName => "err:invalidname"
+  | .invalidDigest => "err:invaliddigest"
+  | .sizeMismatch => "err:sizemismatch"
+
+def showOut : Out → String
+  | .res r => showRes r
+  | .digest d => s!"dig:{hexOrDash d}"
+  | .entry n => s!"entry:{n}"
+  | .unlinked b => s!"unlinked:{b}"
+
+def showSt : FileSt → String
+  | none => "absent"
+  | some f => hexOrDash f
+
+def pSt : TP FileSt := do
+  let t ← tok
+  if t == "absent" then pure none
+  else match unhex t with
+    | some b => pure (some b)
+    | none => failure
+
+def opDigests : Op → List Digest
+  | .put d _ _ => [d]
+  | .get d => [d]
+  | .link _ d => [d]
+  | .chunk d _ _ _ _ _ => [d]
+  | _ => []
+
+def outDigests : Out → List Digest
+  | .digest d => [d]
+  | _ => []
+
+def showPath (p : MPath) : String := joinWith "/" (p.map hexOrDash)
+
+def histCmd (fixed : Bool) (ops : List Op) : String :=
+  let r := runOps H fixed ops Disk.empty
+  let keys := (ops.flatMap opDigests ++ r.2.flatMap outDigests).map hexOf
+  let keys := (keys.toArray.qsort (· < ·)).toList.eraseDups
+  let blobs := keys.filterMap fun kx =>
+    match unhex kx with
+    | some d => match r.1.blob d with
+      | some f => some s!"{kx.take 8}={hexOrDash f}"
+      | none => none
+    | none => none
+  let mans := r.1.mans.map fun e => s!"{showPath e.1}={hexOrDash e.2}"
+  s!"{joinWith ";" (r.2.map showOut)} | {joinWith "," blobs} | {joinWith "," mans}"
+
+def pKind : TP EffKind := do
+  let t ← tok
+  match t with
+  | "open" => pure .openK
+  | "write" => pure .writeK
+  | "trunc" => pure .truncK
+  | "rename" => pure .renameK
+  | _ => failure
+
+def crashOut (init : FileSt) (er : List Eff × Res) (kd : EffKind) (n : Nat) : String :=
+  match prefixBefore kd n er.1 with
+  | some p => s!"killed {showSt (run p init)}"
+  | none => s!"survived {showSt (run er.1 init)} {showRes er.2}"
+
+def pEv : TP (Bool × Nat) := do
+  let t ← tok
+  match t.toList with
+  | 's' :: ds => match (String.ofList ds).toNat? with
+    | some i => pure (true, i)
+    | none => failure
+  | 'd' :: ds => match (String.ofList ds).toNat? with
+    | some i => pure (false, i)
+    | none => failure
+  | _ => failure
+
+/-- run writer `i` with model steps until `stop` holds of its state (bounded by `fuel`) -/
+def stepsUntil (d : Digest) (size : Nat) (i : Nat) (stop : W → Bool) : Nat → Sys → Sys
+  | 0, s => s
+  | fuel + 1, s =>
+    match s.ws[i]? with
+    | none => s
+    | some w => if stop w then s else stepsUntil d size i stop fuel (execEv H d size s (.step i))
+
+def isPwriteHead : W → Bool
+  | .running (.pwrite _ _ :: _) _ => true
+  | _ => false
+
+def isDone : W → Bool
+  | .done _ => true
+  | _ => false
+
+/-- the granularity at which the Go driver can schedule real writers (it controls only their `Read`s) -/
+def macroEv (d : Digest) (size : Nat) (s : Sys) (ev : Bool × Nat) : Sys :=
+  let i := ev.2
+  if ev.1 then
+    -- start: stat, then everything up to the first Read (= before the first pwrite), or return
+    let s1 := execEv H d size s (.step i)
+    match s1.ws[i]? with
+    | some (.running (.openCreate _ :: _) _) => execEv H d size s1 (.step i)
+    | _ => s1
+  else
+    match s.ws[i]? with
+    | some w =>
+      if isPwriteHead w then execEv H d size s (.step i)
+      else stepsUntil d size i isDone 8 s
+    | none => s
+
+def showW : W → String
+  | .init _ => "init"
+  | .running _ _ => "running"
+  | .done r => showRes r
+  | .dead => "dead"
+
+def concCmd (init : FileSt) (d : Digest) (size : Nat) (scripts : List Script) (evs : List (Bool × Nat)) : String :=
+  let s0 : Sys := ⟨init, scripts.map W.init⟩
+  let (states, sEnd) := evs.foldl (fun (acc : List String × Sys) ev =>
+    let s' := macroEv d size acc.2 ev
+    (acc.1 ++ [showSt s'.file], s')) ([], s0)
+  s!"{joinWith "," states} | {joinWith "," (sEnd.ws.map showW)}"
 
 def handle (toks : List String) : Option String :=
   match toks with
+  | "hist" :: rest =>
+    runTP (do
+      let fixed ← nat
+      let ops ← listOf pOp
+      pure (histCmd (fixed != 0) ops)) rest
+  | "crash" :: "put" :: rest =>
+    runTP (do
+      let init ← pSt; let d ← hex; let size ← nat; let s ← pScript; let kd ← pKind; let n ← nat
+      pure (crashOut init (copyNamedEffs H init d size s) kd n)) rest
+  | "crash" :: "import" :: rest =>
+    runTP (do
+      let init ← pSt; let size ← nat; let s ← pScript; let kd ← pKind; let n ← nat
+      let r := importEffs H size s
+      pure (crashOut init ((r.1.map (·.2)).getD [], r.2) kd n)) rest
+  | "crash" :: "chunk" :: rest =>
+    runTP (do
+      let init ← pSt; let size ← nat; let a ← nat; let b ← nat; let cd ← hex; let s ← pScript
+      let kd ← pKind; let n ← nat
+      pure (crashOut init (chunkEffs H init size a b cd s) kd n)) rest
+  | "conc" :: rest =>
+    runTP (do
+      let init ← pSt; let d ← hex; let size ← nat
+      let scripts ← listOf pScript
+      let evs ← listOf pEv
+      pure (concCmd init d size scripts evs)) rest
+  | "sha" :: rest =>
+    runTP (do let b ← hex; pure (hexOf (H b))) rest
   | _ => none
 
 end Oracle.C08
